@@ -719,8 +719,14 @@ func genCtorArg(r *Rng, c *ctorEntry) string {
 				}
 			}
 			ds := hx(d)
-			if r.Chance(1, 10) {
+			switch r.Intn(10) {
+			case 0:
 				ds = genIPArg(r)
+			case 1, 2:
+				// the same IPv4 destination in its 16-byte form, as net.IPv4 and
+				// net.ParseIP return it (seeded change C17-6: encoder slicing the
+				// 16-byte form instead of To4())
+				ds = hx(net.IPv4(d[0], d[1], d[2], d[3]))
 			}
 			return fmt.Sprintf("%d:%s:%s", w, ds, genIPArg(r))
 		})
